@@ -23,8 +23,10 @@ VARIABLES c,          \* the scenario
           yielded,    \* items the generator has yielded
           delivered,  \* items sent to the client
           pingsSent, finalSent, closedCount, closedAt, returned, retAt, retExc, discSeen,
-          begun       \* the generator's body has started executing
-vars == <<c, now, yielded, delivered, pingsSent, finalSent, closedCount, closedAt, returned, retAt, retExc, discSeen, begun>>
+          begun,      \* the generator's body has started executing
+          discAt,     \* when the disconnect was delivered to the response
+          released    \* the response has called aclose() on the user's iterable (or the generator ran to its end)
+vars == <<c, now, yielded, delivered, pingsSent, finalSent, closedCount, closedAt, returned, retAt, retExc, discSeen, begun, discAt, released>>
 
 NItems == Len(c.at)
 \* when the producer takes its next step after time t: next yield, raise or exhaustion.  (A step in
@@ -37,51 +39,56 @@ MaxI(a, b) == IF a > b THEN a ELSE b
 \* the latest moment the call may return after a disconnect at c.disc
 \* (every send that takes time pushes the producer's schedule and the return back by its cost)
 Slack == c.sendCost * (delivered + pingsSent + 3)
+\* (counted from the moment the disconnect is delivered to the response: it only listens once the start has been sent)
 Deadline ==
-  IF c.kind = "sse" THEN c.disc + c.ping + Slack
-  ELSE MaxI(c.disc, NextStepAfter(c.disc)) + Slack
+  IF c.kind = "sse" THEN discAt + c.ping + Slack
+  ELSE MaxI(discAt, NextStepAfter(discAt)) + Slack
 
 Start(s) == /\ c = s /\ now = 0 /\ yielded = 0 /\ delivered = 0 /\ pingsSent = 0 /\ finalSent = FALSE
-            /\ closedCount = 0 /\ closedAt = 0 /\ returned = FALSE /\ retAt = 0 /\ retExc = "" /\ discSeen = FALSE /\ begun = FALSE
+            /\ closedCount = 0 /\ closedAt = 0 /\ returned = FALSE /\ retAt = 0 /\ retExc = "" /\ discSeen = FALSE /\ begun = FALSE /\ discAt = 0 /\ released = FALSE
 
 Tick(t) == t >= now /\ now' = t
 
 \* the generator's body starts executing (first __anext__)
 Begin(t) == /\ Tick(t) /\ ~begun /\ closedCount = 0
             /\ begun' = TRUE
-            /\ UNCHANGED <<c, yielded, delivered, pingsSent, finalSent, closedCount, closedAt, returned, retAt, retExc, discSeen>>
+            /\ UNCHANGED <<c, yielded, delivered, pingsSent, finalSent, closedCount, closedAt, returned, retAt, retExc, discSeen, discAt, released>>
+
+\* the response releases the user's iterable: iterable.aclose() is called
+Release(t) == /\ Tick(t) /\ released' = TRUE
+              /\ UNCHANGED <<c, yielded, delivered, pingsSent, finalSent, closedCount, closedAt, returned, retAt, retExc, discSeen, begun, discAt>>
 
 \* the generator yields item i at time t - exactly when the scenario says
 Yield(i, t) == /\ Tick(t) /\ i = yielded + 1 /\ i <= NItems
                /\ (IF c.sendCost = 0 THEN t = c.at[i] ELSE t >= c.at[i])   \* slow sends hold the producer back
                /\ closedCount = 0 /\ begun
                /\ yielded' = i
-               /\ UNCHANGED <<c, delivered, pingsSent, finalSent, closedCount, closedAt, returned, retAt, retExc, discSeen, begun>>
+               /\ UNCHANGED <<c, delivered, pingsSent, finalSent, closedCount, closedAt, returned, retAt, retExc, discSeen, begun, discAt, released>>
 
 \* item i reaches the client: in order, exactly once, only after it was yielded, never after the end
 Body(i, t) == /\ Tick(t) /\ i = delivered + 1 /\ i <= yielded /\ ~finalSent /\ ~returned
               /\ delivered' = i
-              /\ UNCHANGED <<c, yielded, pingsSent, finalSent, closedCount, closedAt, returned, retAt, retExc, discSeen, begun>>
+              /\ UNCHANGED <<c, yielded, pingsSent, finalSent, closedCount, closedAt, returned, retAt, retExc, discSeen, begun, discAt, released>>
 
 \* keep-alive comment: event streams only, and only while nothing is waiting to be delivered
 Ping(t) == /\ Tick(t) /\ c.kind = "sse" /\ ~finalSent /\ ~returned
            /\ pingsSent' = pingsSent + 1
-           /\ UNCHANGED <<c, yielded, delivered, finalSent, closedCount, closedAt, returned, retAt, retExc, discSeen, begun>>
+           /\ UNCHANGED <<c, yielded, delivered, finalSent, closedCount, closedAt, returned, retAt, retExc, discSeen, begun, discAt, released>>
 
-Disc(t) == /\ Tick(t) /\ ~discSeen /\ c.disc # NoDisc /\ t = c.disc
-           /\ discSeen' = TRUE
-           /\ UNCHANGED <<c, yielded, delivered, pingsSent, finalSent, closedCount, closedAt, returned, retAt, retExc, begun>>
+Disc(t) == /\ Tick(t) /\ ~discSeen /\ c.disc # NoDisc /\ t >= c.disc
+           /\ discSeen' = TRUE /\ discAt' = t
+           /\ UNCHANGED <<c, yielded, delivered, pingsSent, finalSent, closedCount, closedAt, returned, retAt, retExc, begun, released>>
 
 \* the final body event: once; without disconnect or failure only after everything was delivered
 Final(t) == /\ Tick(t) /\ ~finalSent /\ ~returned
             /\ (~discSeen /\ c.raiseAt = 0) => delivered = NItems
             /\ finalSent' = TRUE
-            /\ UNCHANGED <<c, yielded, delivered, pingsSent, closedCount, closedAt, returned, retAt, retExc, discSeen, begun>>
+            /\ UNCHANGED <<c, yielded, delivered, pingsSent, closedCount, closedAt, returned, retAt, retExc, discSeen, begun, discAt, released>>
 
 \* the user's generator is cleaned up: exactly once
 Closed(t) == /\ Tick(t) /\ closedCount = 0
              /\ closedCount' = 1 /\ closedAt' = t
-             /\ UNCHANGED <<c, yielded, delivered, pingsSent, finalSent, returned, retAt, retExc, discSeen, begun>>
+             /\ UNCHANGED <<c, yielded, delivered, pingsSent, finalSent, returned, retAt, retExc, discSeen, begun, discAt, released>>
 
 \* the response call returns (exc = "" ) or raises exc
 Return(t, exc) ==
@@ -91,11 +98,12 @@ Return(t, exc) ==
   /\ (exc # "") => (exc = "ProducerError" /\ c.raiseAt > 0)    \* only the producer's own exception may come out
   /\ (c.raiseAt > 0 /\ ~discSeen) => exc = "ProducerError"     \* ... and it is not swallowed
   /\ returned' = TRUE /\ retAt' = t /\ retExc' = exc
-  /\ UNCHANGED <<c, yielded, delivered, pingsSent, finalSent, closedCount, closedAt, discSeen, begun>>
+  /\ UNCHANGED <<c, yielded, delivered, pingsSent, finalSent, closedCount, closedAt, discSeen, begun, discAt, released>>
 
 \* after the return and one more turn of the event loop: generator cleaned up exactly once, nothing pending
 Settled(pending) == /\ returned /\ pending = 0
                     /\ begun => closedCount = 1
+                    /\ (released \/ closedCount = 1)   \* the user's iterable was closed by the response (started or not), or ran to its end
                     /\ UNCHANGED vars
 
 \* ---------------------------------------------------------------- generative form, for model checking the automaton itself
@@ -103,7 +111,7 @@ CONSTANTS Scenarios, MaxT
 TheScenarios == Scenarios
 Init == \E s \in TheScenarios : Start(s)
 Next == \E t \in 0..MaxT :
-          \/ Begin(t) \/ Ping(t) \/ Disc(t) \/ Final(t) \/ Closed(t)
+          \/ Begin(t) \/ Ping(t) \/ Disc(t) \/ Final(t) \/ Closed(t) \/ Release(t)
           \/ \E i \in 1..3 : Yield(i, t) \/ Body(i, t)
           \/ \E x \in {"", "ProducerError"} : Return(t, x)
 Spec == Init /\ [][Next]_vars
